@@ -120,6 +120,13 @@ func mergeToWriter(segments []*SegmentBase, drops []*roaring.Bitmap,
 	fieldsMap = mapFields(fieldsInv)
 
 	numDocs = computeNewDocCount(segments, drops)
+	if numDocs == 0 {
+		// nothing survives: like a segment built from an empty batch, an
+		// empty segment carries no fields (a field record at offset 0 is
+		// taken for absent by the loader, which would shift the field ids)
+		fieldsInv = fieldsInv[:1]
+		fieldsMap = mapFields(fieldsInv)
+	}
 
 	if isClosed(closeCh) {
 		return nil, 0, 0, nil, nil, 0, seg.ErrClosed
